@@ -40,11 +40,22 @@ def nontrivial(r):
 
 
 def run(ctx):
-    return common.conductor_run(
+    out = common.conductor_run(
         ctx, "C03", FAM, common.project_full, monitors.c03, features, nontrivial, 300, 6000,
         rule="generated definitions (with-items, retries, joins, loops) under random histories with control requests and "
              "reruns; after every provider operation with nothing in flight a restored copy of the engine is polled; "
              "non-trivial = the history had at least one quiescent point")
+    # tie of the formal provider protocol (ProviderSys.v, what C02b / C03b quantify over) to the engine
+    if ctx["model_ok"]:
+        from harness import syscheck
+        n, in_scope, fails = syscheck.run(ctx["seed"] % 100000, 8 if ctx["tier"] == "quick" else 60)
+        out["provider_protocol_runs_checked"] = {"runs": n, "within_theorem_hypotheses": in_scope,
+                                                 "what": "protocol histories run on the engine through the reference "
+                                                         "provider and through ProviderSys.sys_run inside Coq: same "
+                                                         "final state, in-flight set, number of API calls, no fault"}
+        for f in fails:
+            out["violations"].append(dict(f, property="C03"))
+    return out
 
 
 def replay(payload):
